@@ -549,8 +549,9 @@ func c07Anchors() []c07Anchor {
 		// the engine's default graph parameters on unclustered 64-d data, built by the parallel batch path:
 		// the configuration where efSearch matters most (recall at ef=10 is far below recall at ef=100)
 		{quick: true, c: c07RecallCase{Anchor: "default-batch", Cfg: c07Cfg{Metric: "cosine", Prec: "float32", M: 16, EfC: 200, Dim: 64}, N: 2000, Data: "uniform", Build: "batch", Chunk: 100, Phases: []string{"del30", "vacuum", "restart"}, NQ: 200}},
-		// a small-parameter index loaded by fast import on clustered data, then refined, half deleted, vacuumed
-		{quick: true, c: c07RecallCase{Anchor: "small-import", Cfg: c07Cfg{Metric: "euclidean", Prec: "float16", M: 8, EfC: 40, Dim: 16}, N: 1500, Data: "clustered", Build: "import", Chunk: 200, Phases: []string{"refine", "del50", "vacuum"}, NQ: 200}},
+		// a small-parameter float16 index loaded by fast import, then refined, half deleted, vacuumed
+		// (gaussian data: the "clustered" kind draws its cluster count and spread, which makes it heterogeneous)
+		{quick: true, c: c07RecallCase{Anchor: "small-import", Cfg: c07Cfg{Metric: "euclidean", Prec: "float16", M: 8, EfC: 40, Dim: 16}, N: 1500, Data: "gauss", Build: "import", Chunk: 200, Phases: []string{"refine", "del50", "vacuum"}, NQ: 200}},
 		// default parameters, one-by-one inserts
 		{c: c07RecallCase{Anchor: "default-single", Cfg: c07Cfg{Metric: "euclidean", Prec: "float32", M: 16, EfC: 200, Dim: 64}, N: 2000, Data: "gauss", Build: "single", Chunk: 200, Phases: []string{"del30", "vacuum", "grow"}, NQ: 200}},
 		// compression to int8 of a cosine index
